@@ -96,7 +96,7 @@ func (c *c12Ctx) reparseExpr(door, text string, planned Expr, want, printed stri
 			return
 		}
 		if got := c12Canon(r.e); got != want {
-			kinds := c12Explain(func(n c12Norm) (string, string) { return c12CanonN(planned, n), c12CanonN(r.e, n) }, []Expr{planned})
+			kinds := c12Explain(func(n c12Norm) (string, string) { return c12CanonN(planned, n), c12CanonN(r.e, n.shipped()) }, []Expr{planned})
 			c.vios(kinds, "roundtrip_mismatch", door, text,
 				func() string {
 					return fmt.Sprintf("printed %q (scanner state %d)\n  planned: %s\n  shipped: %s", printed, st, want, got)
@@ -182,7 +182,9 @@ func (c *c12Ctx) check(text string) {
 					c.vios(nonEmpty(c12ExplainFailure(planned, err.Error(), false)), "print_not_reparsable", "Ys", text,
 						func() string { return fmt.Sprintf("statement %q does not re-parse: %v\n  planned: %s", ss, err, want) })
 				} else if got := c12Canon(sel2.Condition); got != want {
-					kinds := c12Explain(func(n c12Norm) (string, string) { return c12CanonN(sel.Condition, n), c12CanonN(sel2.Condition, n) }, planned)
+					kinds := c12Explain(func(n c12Norm) (string, string) {
+						return c12CanonN(sel.Condition, n), c12CanonN(sel2.Condition, n.shipped())
+					}, planned)
 					c.vios(kinds, "roundtrip_mismatch", "Ys", text, func() string { return fmt.Sprintf("statement %q\n  planned: %s\n  reparsed: %s", ss, want, got) })
 				}
 			}
@@ -220,7 +222,9 @@ func (c *c12Ctx) check(text string) {
 						break
 					}
 					if got := c12CanonFields(fs, c12Norm{}); got != want {
-						kinds := c12Explain(func(n c12Norm) (string, string) { return c12CanonFields(sel.Fields, n), c12CanonFields(fs, n) }, planned)
+						kinds := c12Explain(func(n c12Norm) (string, string) {
+							return c12CanonFields(sel.Fields, n), c12CanonFields(fs, n.shipped())
+						}, planned)
 						c.vios(kinds, "roundtrip_mismatch", "Yf", text, func() string { return fmt.Sprintf("fields %q\n  planned: %s\n  shipped: %s", printed, want, got) })
 						break
 					}
@@ -243,7 +247,9 @@ func (c *c12Ctx) check(text string) {
 				c.vios(nonEmpty(c12ExplainFailure(planned, err.Error(), true)), "print_not_reparsable", "Hs", text,
 					func() string { return fmt.Sprintf("statement %q does not re-parse: %v\n  planned: %s", ss, err, want) })
 			} else if got := c12Canon(sel2.Condition); got != want {
-				kinds := c12Explain(func(n c12Norm) (string, string) { return c12CanonN(sel.Condition, n), c12CanonN(sel2.Condition, n) }, planned)
+				kinds := c12Explain(func(n c12Norm) (string, string) {
+					return c12CanonN(sel.Condition, n), c12CanonN(sel2.Condition, n.shipped())
+				}, planned)
 				c.vios(kinds, "roundtrip_mismatch", "Hs", text, func() string { return fmt.Sprintf("statement %q\n  planned: %s\n  reparsed: %s", ss, want, got) })
 			}
 		}
